@@ -95,7 +95,8 @@ def translate():
 
 def tree_stamp():
     h = hashlib.sha256()
-    for p in v_files() + [os.path.join(VERIF, "ocaml", "driver.ml")]:
+    odir = os.path.join(VERIF, "ocaml")
+    for p in v_files() + sorted(os.path.join(odir, f) for f in os.listdir(odir) if f.endswith(".ml")):
         h.update(p.encode())
         with open(p, "rb") as f:
             h.update(f.read())
@@ -131,12 +132,19 @@ def build_kmodel(force=False):
     ext = os.path.join(BUILD, "extract")
     subprocess.run(["rm", "-rf", ext])
     os.makedirs(ext)
-    rc, out = run_cmd(["coqc", "-Q", os.path.join(COQ, "theories"), "KV", os.path.join(COQ, "theories", "Extract", "Extract.v")],
-                      cwd=ext, timeout=900)
-    if rc:
-        return False, "extraction failed:\n" + out
-    subprocess.run(["cp", os.path.join(VERIF, "ocaml", "driver.ml"), ext])
-    rc, out = run_cmd(["sh", "-c", "ocamlfind ocamlopt -w -a -o ../kmodel $(ocamlfind ocamldep -sort *.ml *.mli)"], cwd=ext, timeout=900)
+    exdir = os.path.join(COQ, "theories", "Extract")
+    for ev in sorted(f for f in os.listdir(exdir) if f.endswith(".v")):
+        rc, out = run_cmd(["coqc", "-Q", os.path.join(COQ, "theories"), "KV", os.path.join(exdir, ev)], cwd=ext, timeout=900)
+        if rc:
+            return False, "extraction failed (%s):\n%s" % (ev, out)
+    odir = os.path.join(VERIF, "ocaml")
+    cmds = sorted(f for f in os.listdir(odir) if f.startswith("cmds_") and f.endswith(".ml"))
+    for f in ["kcore.ml", "kmain.ml"] + cmds:
+        subprocess.run(["cp", os.path.join(odir, f), ext])
+    # link order: extracted modules (dependency-sorted), kcore, cmds_* (they register their commands), kmain (the loop)
+    sh = ("EXT=$(ls *.ml *.mli | grep -v -e '^kcore.ml$' -e '^kmain.ml$' -e '^cmds_'); "
+          "ocamlfind ocamlopt -w -a -o ../kmodel $(ocamlfind ocamldep -sort $EXT) kcore.ml %s kmain.ml" % " ".join(cmds))
+    rc, out = run_cmd(["sh", "-c", sh], cwd=ext, timeout=900)
     if rc:
         return False, "ocaml build failed:\n" + out
     with open(stamp_file, "w") as f:
@@ -359,10 +367,16 @@ def unjson(o):
 
 
 def load_known():
+    res = []
     p = os.path.join(VERIF, "known_findings.json")
-    if not os.path.exists(p):
-        return []
-    return json.load(open(p)).get("findings", [])
+    if os.path.exists(p):
+        res += json.load(open(p)).get("findings", [])
+    d = os.path.join(VERIF, "known_findings.d")
+    if os.path.isdir(d):
+        for f in sorted(os.listdir(d)):
+            if f.endswith(".json"):
+                res += json.load(open(os.path.join(d, f))).get("findings", [])
+    return res
 
 
 def write_evidence(ctx, level="proof"):
